@@ -29,6 +29,7 @@ type program struct {
 	renamesExpected bool
 	outcome         string
 	links           []string // user files of p that are symbolic links to a file of the same name under _shared/
+	patterns        []string // packages named on the command line (default ./p)
 }
 
 var suffixPool = []string{"", "A", "B", "X1", "ForTheFirstType", "WithAVeryLongSuffixToMakeTheNameLongerThanAnyFreshName", "Q", "Z9"}
@@ -220,6 +221,14 @@ func drawProgram(t *rapid.T) *program {
 	default:
 		pr.outcome = "normal"
 	}
+	if rapid.IntRange(0, 3).Draw(t, "dirless") == 0 {
+		// a second named package that has no file of its own (an external test only), and a derived.gen.go in the
+		// working directory that belongs to neither package
+		pr.files["xt/x_test.go"] = "package xt_test\n\nimport \"testing\"\n\nfunc TestX(t *testing.T) {}\n"
+		pr.files["derived.gen.go"] = "// Code generated by goderive DO NOT EDIT.\n\npackage subj\n\nfunc deriveKept() {}\n"
+		pr.patterns = []string{"./p", "./xt"}
+		pr.desc = append(pr.desc, "dirless-package:./xt")
+	}
 	if rapid.IntRange(0, 3).Draw(t, "symlinked") == 0 {
 		// one of the user's files is a symbolic link (the file itself is kept elsewhere): whatever is written to it
 		// has to arrive in the file it points to, and it has to stay a link
@@ -301,7 +310,11 @@ func judge(c *pkit.Ctx, pr *program) (map[string]string, string, bool) {
 		linked[target] = l
 	}
 	before, _ := gorun.Snapshot(dir)
-	res := gorun.RunGoderive(dir, append(append([]string{}, pr.flags...), "./p")...)
+	pats := pr.patterns
+	if len(pats) == 0 {
+		pats = []string{"./p"}
+	}
+	res := gorun.RunGoderive(dir, append(append([]string{}, pr.flags...), pats...)...)
 	if res.Err != nil || res.TimedOut {
 		return map[string]string{"check": "infra"}, "goderive did not run", false
 	}
@@ -401,7 +414,7 @@ func TestProp(t *testing.T) {
 		}
 		c.Rep.Sample(map[string]any{"flags": pr.flags, "outcome": pr.outcome, "calls": pr.desc})
 		if sig != nil {
-			c.Fail(rt, sig, msg, pr.files, map[string]any{"flags": pr.flags, "links": pr.links})
+			c.Fail(rt, sig, msg, pr.files, map[string]any{"flags": pr.flags, "links": pr.links, "patterns": pr.patterns})
 		}
 	})
 }
@@ -421,6 +434,11 @@ func TestReplay(t *testing.T) {
 	if fl, ok := meta["flags"].([]any); ok {
 		for _, f := range fl {
 			pr.flags = append(pr.flags, fmt.Sprint(f))
+		}
+	}
+	if ps, ok := meta["patterns"].([]any); ok {
+		for _, x := range ps {
+			pr.patterns = append(pr.patterns, fmt.Sprint(x))
 		}
 	}
 	if ls, ok := meta["links"].([]any); ok {
